@@ -321,6 +321,7 @@ class Interp:
         self.contracts = contracts or {}
         self.pat_sort = pat_sort          # sort given to patterns built by constructor calls
         self.modcache = {}
+        self.shared_ids = {}     # id(container bound at module / class level) -> where: state that outlives a call
         self.depth = 0
         self.opts = opts or {}
         self.inline = set(self.opts.get('inline', ()))     # qualnames to inline even if a contract exists
@@ -655,6 +656,7 @@ class Interp:
         if name in module.assigns:
             v = self.eval(module.assigns[name], Env(), module)
             self.modcache[key] = v
+            self.note_shared(v, f'{module.name}.{name}')
             return v
         if name in module.imports:
             mod, n = module.imports[name]
@@ -667,6 +669,23 @@ class Interp:
         if name in BUILTINS:
             return BUILTINS[name]
         raise Unsupported(f'unknown name {name} in {module.name}')
+
+    def note_shared(self, v, where):
+        if isinstance(v, (dict, list, set)):
+            self.shared_ids[id(v)] = where
+
+    def frame_write(self, o):
+        """a write to a container that is bound at module or class level: such state outlives the call (frame condition of every function under contract)"""
+        w = self.shared_ids.get(id(o))
+        if w is not None:
+            self.ctx.oblige(f'frame:no module- or class-level state is written ({w})', z3.BoolVal(False), kind='frame')
+
+    def class_attr(self, c, name):
+        key = ('class', c.module.name, c.name, name)
+        if key not in self.modcache:
+            self.modcache[key] = self.eval(c.class_attrs[name], Env(), c.module)
+            self.note_shared(self.modcache[key], f'{c.module.name}.{c.name}.{name}')
+        return self.modcache[key]
 
     def external(self, mod, n):
         key = f'{mod}.{n}' if n else mod
@@ -1056,9 +1075,11 @@ class Interp:
             if isinstance(o, SymDict):
                 o.store(self, k, v)
             elif isinstance(o, dict):
+                self.frame_write(o)
                 kk = self.dict_key(o, k)
                 o[kk] = v
             elif isinstance(o, list) and isinstance(k, int):
+                self.frame_write(o)
                 o[k] = v
             else:
                 raise Unsupported(f'subscript store on {o!r}')
@@ -1550,7 +1571,7 @@ class Interp:
                 return Bound(o, m)
             for c in o.cls.mro():
                 if name in c.class_attrs:
-                    return self.eval(c.class_attrs[name], Env(), c.module)
+                    return self.class_attr(c, name)
             raise SymRaise('AttributeError', name)
         if isinstance(o, (PyFunc, Closure)) and name == '__name__':
             return o.node.name if hasattr(o.node, 'name') else '<lambda>'
@@ -1562,7 +1583,7 @@ class Interp:
                 return m
             for c in o.mro():
                 if name in c.class_attrs:
-                    return self.eval(c.class_attrs[name], Env(), c.module)
+                    return self.class_attr(c, name)
             if name == '__name__':
                 return o.name
             raise SymRaise('AttributeError', name)
@@ -2029,6 +2050,8 @@ class _SVMethod:
 
     def call(self, it, args, kwargs):
         o, n = self.o, self.name
+        if isinstance(o, (dict, list, set)) and n in ('append', 'add', 'update', 'extend', 'setdefault', 'pop', 'popitem', 'clear', 'insert', 'remove', 'discard', 'sort', 'reverse'):
+            it.frame_write(o)
         if isinstance(o, (set, frozenset)) and n == 'union':
             if all(isinstance(a, (set, frozenset)) for a in args):
                 r = set(o)
